@@ -49,6 +49,10 @@ class ParameterSection(Micheline, prim='parameter', args_len=1):
 
         root_type = cast(Type[MichelsonType], args[0])
         if issubclass(root_type, OrType):
+            names = [arg.field_name for _, arg in root_type.iter_type_args(entrypoints=True)]  # type: ignore
+            if root_type.field_name:
+                names.append(root_type.field_name)
+            assert len(names) == len(set(names)), f'duplicate entrypoint names: {names}'
             root_name = root_type.field_name  # type: ignore
             if not root_name:
                 flat_args = root_type.get_flat_args(entrypoints=True)  # type: ignore
